@@ -144,11 +144,43 @@ def compare(exp, got, ordered=True, rtol=1e-9):
     return bad
 
 
+def _tok_for_tlc(t):
+    from fractions import Fraction
+    if "lit" in t:
+        try:
+            f = Fraction(t["lit"])
+            return {"m": False, "v": [f.numerator, f.denominator], "txt": t["lit"]}
+        except (ValueError, ZeroDivisionError):
+            return {"m": True, "v": [0, 0], "txt": t["lit"]}
+    v = t["num"]
+    return {"m": False, "v": v if isinstance(v, list) else [v, 1], "txt": ""}
+
+
+def _trace_of(obj, events):
+    """literal file + recorded reader events -> a trace for Trace_TextFormat"""
+    from harness.c18replay import pair
+    evs = []
+    for e in events:
+        if e["ev"] == "TextHeader":
+            evs.append({"ev": "TextHeader", "header": [list(x) for x in e["header"]], "threshold": [list(x) for x in e["threshold"]],
+                        "quantile": [list(x) for x in e["quantile"]], "member": [list(x) for x in e["member"]], "other": [list(x) for x in e["other"]]})
+        elif e["ev"] == "TextDims":
+            evs.append({"ev": "TextDims", "times": [pair(x) for x in e["times"]], "leadtimes": [pair(x) for x in e["leadtimes"]],
+                        "ids": [pair(x) for x in e["ids"]], "thresholds": [pair(x) for x in e["thresholds"]],
+                        "quantiles": [pair(x) for x in e["quantiles"]], "members": [pair(x) for x in e["members"]]})
+    if not evs:
+        return {"nohooks": True}
+    return {"meta": obj["meta"], "header": obj["header"], "rows": [[_tok_for_tlc(t) for t in row] for row in obj["rows"]], "events": evs}
+
+
 def _check_chunk(jobs):
+    import json
     import verif.input
     n = 0
     divs = []
+    traces = []
     wd = par.workdir()
+    hook = os.path.join(wd, "text_hook.ndjson")
     for obj, sep, comment in jobs:
         text = render(obj, sep, comment)
         path = os.path.join(wd, "file.txt")
@@ -156,8 +188,16 @@ def _check_chunk(jobs):
             f.write(text)
         rep = {"kind": "textfile", "file": text, "expected": obj["input"], "gen": obj.get("gen")}
         try:
+            open(hook, "w").close()
+            os.environ["VERIF_TLA_TRACE"] = hook
+            try:
+                with quiet():
+                    inp = verif.input.Text(path)
+            finally:
+                os.environ.pop("VERIF_TLA_TRACE", None)
+            with open(hook) as hf:
+                traces.append(_trace_of(obj, [json.loads(x) for x in hf if x.strip()]))
             with quiet():
-                inp = verif.input.Text(path)
                 got = project(inp)
             n += 1
             for site, msg in compare(obj["input"], got):
@@ -167,7 +207,32 @@ def _check_chunk(jobs):
         except Exception as e:
             site = exc_site(e)
             divs.append((site, "%r (comment line %r)" % (e, comment), rep))
-    return n, divs
+    return n, divs, traces
+
+
+def _validate_reader_traces(ctx, recorded):
+    """code -> spec: column classification and final dimension lists recorded from the real reader, checked by TLC (Trace_TextFormat)"""
+    import json
+    from harness import core
+    traces = [t for t in recorded if not t.get("nohooks")]
+    if len(traces) < len(recorded):
+        ctx.note_drift("text reader hooks absent or silent for %d of %d files; reader trace validation skipped for them" % (len(recorded) - len(traces), len(recorded)))
+    if not traces:
+        return
+    for k, t in enumerate(traces):
+        t["id"] = k + 1
+    os.makedirs(os.path.join(core.BUILD, "traces"), exist_ok=True)
+    path = os.path.join(core.BUILD, "traces", "C09_reader.json")
+    with open(path, "w") as f:
+        json.dump({"traces": traces}, f)
+    res = tlc.run("Trace_TextFormat", "Trace_TextFormat", tag=ctx.pid + "_trace", workers=8, timeout_s=1800, env={"TRACE_FILE": path}, require_emit=False)
+    ctx.add_tlc("Trace_TextFormat (%d recorded reads)" % len(traces), res)
+    ok = set(o["accept"] for o in res.emitted if "accept" in o)
+    ctx.extra["reader_traces_recorded"] = len(traces)
+    ctx.extra["reader_traces_accepted_by_tlc"] = len(ok)
+    for t in [t for t in traces if t["id"] not in ok][:3]:
+        ctx.note_drift("the reader's recorded column classification / dimension lists are not what TextFormat.tla derives from the file with header %r: %r"
+                       % (["".join(h) for h in t["header"]], [{k: v for k, v in e.items() if k != "header"} for e in t["events"]]))
 
 
 def run(ctx):
@@ -185,11 +250,14 @@ def run(ctx):
         jobs.append((o, " ", None))
         jobs.append((o, rng.choice(["\t", "   ", " \t "]), rng.choice([None, "# a comment line", "#comment without blank", "#"])))
     chunks = [jobs[i:i + 20] for i in range(0, len(jobs), 20)]
-    for n, divs in par.pmap(_check_chunk, chunks, chunk=1):
+    recorded = []
+    for n, divs, traces in par.pmap(_check_chunk, chunks, chunk=1):
         ctx.evaluations += n
+        recorded += traces
         for site, detail, rep in divs:
             known = site.startswith("exception:IndexError@input.py") and "'#'" in detail
             ctx.diverge("text:bare-comment-line" if known else site, rep, as_implemented=known, detail=detail)
+    _validate_reader_traces(ctx, recorded)
     ctx.traces += len(jobs)
     for o, sep, c in jobs:
         ctx.nontriv(str((o["header"], o["gen"], sep, c)))
